@@ -196,7 +196,10 @@ func init() {
 		wirePaddingOutcomes(wc, r, "C01")
 		wirePaddingPrecedence(wc, r, "C01")
 		wireOneByteEndian(w, wc, r, "C01")
+		wireListEndianUnconditional(w, wc, r, "C01")
 		wireSequenceFrame(w, r, "C01", map[string]bool{"Field": true})
+		// what an encoder emits must not depend on which targets ran before it: no generator writes into the model they share
+		r.refile("C14/model-frame", "C01/model-frame", func(sr *Report) { runC14(w, sr) }, nil)
 		attributeIsolation(w, r, "C01")
 		wireFieldOrderEmission(wc, r, "C01", map[string]bool{"enc": true})
 		wireAssumptions(r)
@@ -214,6 +217,7 @@ func init() {
 		wireArgOrder(wc, r, "C02")
 		wirePairDedup(w, wc, r, "C02/decode-arm-per-key", "dec")
 		optionSemantics(w, r, "C02")
+		wireListEndianUnconditional(w, wc, r, "C02")
 		wireCppBeName(wc, r, "C02", []string{"dec"}, 1<<kBasic|1<<kLength|1<<kCheckSum)
 		wireOrder(wc, r, "C02", "dec")
 		wireFieldOrderEmission(wc, r, "C02", map[string]bool{"dec": true})
@@ -226,6 +230,7 @@ func init() {
 		wireSiblingMatrix(wc, r)
 		wirePairDedup(w, wc, r, "C03/dispatch-arm-per-key", "dec")
 		optionSemantics(w, r, "C03")
+		wireListEndianUnconditional(w, wc, r, "C03")
 		wirePaddingSiblings(wc, r, "C03")
 		wirePaddingOutcomes(wc, r, "C03")
 		wirePaddingPrecedence(wc, r, "C03")
@@ -248,7 +253,12 @@ func init() {
 		wc := buildWire(w, r)
 		wireMatch(w, wc, r)
 		wireSequenceFrame(w, r, "C05", map[string]bool{"MatchPair": true})
+		// a key maps to exactly one packet: the parse phase rejects a key that occurs twice in one table (across pairs and lists)
+		r.refile("C12/namespace", "C05/match-keys-unique", func(sr *Report) { c12Namespaces(w, sr) }, func(o Obligation) bool {
+			return strings.Contains(o.Key, "match key")
+		})
 		wireEveryMatchField(w, wc, r, "C05", codecLangs)
+		wireKeyAsWritten(w, wc, r, "C05")
 		wireAssumptions(r)
 	})
 	register("C06", "Checksum fields: every codec generator's encoder cell depends on byte order, the field's type and the algorithm name, every decoder cell on byte order and type; the field's raw type spelling is read only through GetType; the checksum emission sits inside the ordered per-field loop (so 'preceding bytes' are what earlier fields wrote). "+
@@ -279,6 +289,8 @@ func init() {
 		reportCells(r, "C15/lua-sensitivity", wc.cells["lua/dec"])
 		r.floor("C15/lua-sensitivity", 8)
 		wireBeColumn(wc, r, "C15")
+		// the size of a checksum field comes from its resolved type, not from the type as it was spelled (uint32 has no table row)
+		wireRawType(w, r, "C15", "CheckSumFieldAttribute.Type")
 		wireEveryMatchField(w, wc, r, "C15", []string{"lua"})
 		wireEmitOnceKeys(w, wc, r, "C15")
 		c15HelpersDefinedFirst(w, wc, r)
